@@ -22,7 +22,10 @@ RULE = ("case = op list over a chain model: fund(address within gap beyond last 
         "own change / own receiving / external, claim / support / abandon, third-party outputs of 12 script kinds attached to "
         "wallet-touching transactions, mine, deliver (sequential permutation, or concurrent with a gate scheduler ordering every "
         "database and network call; optional duplicate / stale notifications). Oracle after every delivery round. "
-        "non-trivial = a delivery round with >= 2 changed addresses that includes a spend of a wallet UTXO. distinct = canonical JSON.")
+        "non-trivial = a delivery round with >= 2 changed addresses that includes a spend of a wallet UTXO, or a burst of 2..3 further "
+        "notifications for one address whose server history grows while its first notification is still being processed (part "
+        "'burst': small fixed-shape histories, schedules expanded from a generated seed by a PRNG, mostly 'sticky' so that one task "
+        "runs many steps while another stays parked mid-way). distinct = canonical JSON.")
 ASSUMPTIONS = [
     "server history order: confirmed by (height, position in block), then mempool in arrival order with height 0 / -1 (ElectrumX "
     "convention); claim/support scripts are indexed under their P2PKH address as the LBRY hub does",
@@ -80,7 +83,9 @@ def op_strategy(draw):
     if kind == "deliver":
         op.update(mode=draw(st.sampled_from(["seq", "seq", "concurrent", "concurrent"])),
                   perm=draw(st.lists(st.integers(0, 40), max_size=12)),
-                  choices=draw(st.lists(st.integers(0, 7), max_size=120)),
+                  choices=draw(st.lists(st.integers(0, 11), max_size=160)),
+                  sticky=draw(st.booleans()),
+                  choices_seed=draw(st.sampled_from([None, None, draw(st.integers(0, 2 ** 32))])),
                   dup=draw(st.sampled_from([None, None, None, "dup", "stale"])),
                   burst=draw(st.sampled_from([None, None, {"sel": draw(st.integers(0, 20)), "k": draw(st.integers(2, 3)),
                                                            "amount": draw(st.integers(0, 10 ** 6))}])))
@@ -382,7 +387,7 @@ async def run_async(case, out):
                 out.nontrivial = True
             out.label("changed:%s" % ("1" if len(changed) == 1 else "2-3" if len(changed) < 4 else ">=4"))
             try:
-                if op["mode"] == "seq" or len(order) < 2:
+                if op["mode"] == "seq" or (len(order) < 2 and not (op.get("burst") and rounds == 1)):
                     for addr, s in order:
                         send = s
                         if op["dup"] == "stale" and delivered.get(addr) is not None:
@@ -393,7 +398,13 @@ async def run_async(case, out):
                         delivered[addr] = s
                 else:
                     any_concurrent = True
-                    gate = Gate(op["choices"])
+                    choices = op["choices"]
+                    if op.get("choices_seed") is not None:
+                        # Hypothesis lists are biased towards small values; a schedule wants unbiased picks: expand a
+                        # generated seed with a PRNG (still a pure function of the case)
+                        prng = _random.Random(op["choices_seed"])
+                        choices = [prng.randrange(12) for _ in range(240)]
+                    gate = Gate(choices, sticky=bool(op.get("sticky")))
                     dbo = ledger.db.db
                     orig = dbo.run
                     dbo.run = gate.wrap(orig)
@@ -439,6 +450,7 @@ async def run_async(case, out):
                                 gate.task_of[t] = len(order) + k
                                 tasks.append(t)
                                 out.label("burst_same_address")
+                                out.nontrivial = True
                             else:
                                 burst_addr = None
                         await gate.drive(tasks)
@@ -599,7 +611,26 @@ def run_case(case):
     return out
 
 
+@st.composite
+def burst_case(draw, tier="quick"):
+    """small fixed-shape histories whose point is the schedule: one address receives 2..3 further notifications while its
+    history keeps growing and its first notification is still being processed; many generated (mostly sticky) schedules"""
+    pre = [{"op": "fund", "acct": draw(st.sampled_from([0, 0, 1, 2])), "chain": 0, "k": j, "amount": draw(st.integers(1, 10 ** 8)),
+            "nouts": 1} for j in range(draw(st.integers(1, 3)))]
+    again = dict(pre[0], k=-1, amount=draw(st.integers(1, 10 ** 8)))
+    ops = pre + [{"op": "deliver", "mode": "seq", "perm": [], "choices": [], "dup": None}]
+    if draw(st.booleans()):
+        ops.append({"op": "mine"})
+    ops.append(again)
+    ops.append({"op": "deliver", "mode": "concurrent", "perm": draw(st.lists(st.integers(0, 5), max_size=3)),
+                "choices": [], "choices_seed": draw(st.integers(0, 2 ** 32)), "dup": None,
+                "sticky": draw(st.sampled_from([True, True, True, False])),
+                "burst": {"sel": draw(st.integers(0, 3)), "k": draw(st.integers(2, 3)), "amount": draw(st.integers(0, 10 ** 6))}})
+    return {"ops": ops, "only_template_scripts": True}
+
+
 PARTS = [
+    Part("burst", burst_case, run_case, 300, 3000, quick_shards=8, thorough_shards=16, essential=("burst_same_address",)),
     Part("sync", case_strategy, run_case, 300, 3000, quick_shards=8, thorough_shards=16,
          essential=("concurrent", "spend", "claim", "support", "abandon", "mine", "fund_gap3", "spend_unconfirmed_parent",
                     "third:multisig", "third:random", "single_key_account", "burst_same_address")),
